@@ -1,6 +1,7 @@
 SPECIFICATION QuickSpec
 CONSTANTS
   Mutation = "none"
+  AdversaryOn = FALSE
   Emit = TRUE
 INVARIANT Inv
 INVARIANT EmitReplay
